@@ -329,3 +329,47 @@ for op in ("read", "multi-read", "write", "generic"):
             REG.add(f"corrupt/{op}/one-byte/encapsulation-part/{lo}", _mk_corrupt(op, "byte"), pre=lambda pos, val, lo=lo: lo <= pos < min(lo + 12, 44) and 0 <= val < 256, timeout=1500,
                     funcs=F, weight=3, tier="thorough",
                     desc=f"{op}: one byte of the encapsulation header / item headers (positions {lo}..{min(lo + 12, 44) - 1}) replaced by a symbolic value")
+
+
+# ------------------------------------------------------------------ fragmented transfers: an error on ANY fragment fails the whole request
+def _mk_fragment_error(kind):
+    def h(k: int, st: int) -> str:
+        try:
+            from harness.C01 import TAGS
+            from vlib.ref.logix import Symbol
+            from pycomm3.cip.data_types import DINT, Array
+            state = {"i": 0}
+            svc_code = 0x53 if kind == "write" else 0x52
+
+            def hook(svc, segs, data, tr):
+                if svc == svc_code:
+                    state["i"] += 1
+                    if state["i"] == k:
+                        return eip.cip_reply(svc, st, [])
+                return None
+            target = scen.std_project()
+            target.symbols.append(Symbol("BIG", 40, 0xC4, (60,)))
+            target.generic_hook = hook
+            tags = dict(TAGS)
+            tags["BIG"] = dict(TAGS["DA"], tag_name="BIG", instance_id=40, dimensions=[60, 0, 0], type_class=Array(60, DINT))
+            d = scen.make_driver(target, cs=100, tags=tags)
+            if kind == "write":
+                tg = d.write(("BIG{60}", list(range(60))))
+            else:
+                tg = d.read("BIG{60}")
+            n = len([e for e in target.log if e[1] == svc_code])
+            if n < min(k, 3):
+                return "too-few-fragments"
+            if k > n:
+                return "ok" if tg else "good-transfer-failed"
+            if tg or tg.error is None or len(tg.error) == 0:
+                return "transfer with a failed fragment reported as success"
+            return "ok"
+        except Exception as e:
+            return "exc:" + type(e).__name__ + ":" + str(e)[:60]
+    return h
+
+
+for kind in ("write", "read"):
+    REG.add(f"fragmented-{kind}/error-on-fragment-k", _mk_fragment_error(kind), pre=lambda k, st: 1 <= k <= 4 and st in (0x05, 0xFF, 0x13), timeout=600, funcs=F, weight=2,
+            desc=f"fragmented {kind} of DINT[60] at connection size 100 (3+ fragments): the controller answers fragment k (symbolic 1..4) with an error status (symbolic choice): the Tag must be falsy with an error")
